@@ -103,6 +103,11 @@ impl Property for C12 {
                     if len <= symlinked_upto && !emit(json!({"kind": "buffer-session", "events": ev, "library": true})) {
                         return;
                     }
+                    // the same session with include statements that spell their file in a roundabout way
+                    // (`./i.td`, `.//r.td`): one file, whatever the spelling
+                    if len <= symlinked_upto && !emit(json!({"kind": "buffer-session", "events": ev, "dotted": true, "cyclic": len % 2 == 0})) {
+                        return;
+                    }
                     let mut k = len;
                     let mut done = false;
                     loop {
@@ -232,14 +237,18 @@ impl Property for C12 {
         let cyclic = case["cyclic"].as_bool() == Some(true);
         // (with i.td in the library, r.td names it with the library's directory)
         let lib = s.tw.library_subdir().map(|d| d.to_string());
+        let dotted = case["dotted"].as_bool() == Some(true);
         let in_lib = |t: String| match &lib {
             Some(d) => t.replace("include \"i.td\"", &format!("include \"{d}/i.td\"")),
+            None if dotted => t.replace("include \"i.td\"", "include \"./i.td\"").replace("include \"r.td\"", "include \".//r.td\""),
             None => t,
         };
         let disk_i = if cyclic { DISK_I_CYCLIC } else { DISK_I };
         s.tw.write("r.td", &in_lib(DISK_R.to_string()));
         let mut model: BTreeMap<String, String> = BTreeMap::new();
         model.insert("r.td".into(), in_lib(DISK_R.to_string()));
+        let disk_i_text = if dotted { in_lib(disk_i.to_string()) } else { disk_i.to_string() };
+        let disk_i = disk_i_text.as_str();
         if !no_disk_i {
             s.tw.write("i.td", disk_i);
             model.insert("i.td".into(), disk_i.into());
@@ -304,7 +313,7 @@ impl Property for C12 {
                 buffer_text_in(doc, b, cyclic)
             };
             let doc = if b == 4 { 0 } else { doc };
-            let text = if doc == 0 { in_lib(text) } else { text };
+            let text = if doc == 0 || dotted { in_lib(text) } else { text };
             if doc == 0 && s.opened.contains("i.td") && model.get("i.td") != disk.get("i.td") {
                 nontrivial = true;
             }
